@@ -106,6 +106,8 @@ type Server struct {
 	faultSeq        int
 	// FaultOnlyResource restricts injection to one resource ("" = any).
 	FaultOnlyResource string
+	// optional second fault of the same run (FaultKind2 == FaultNone: none)
+	FaultAt2, FaultKind2 int
 }
 
 func NewServer() *Server {
@@ -120,7 +122,7 @@ func (s *Server) ArmFault(at, kind int, onlyResource string, countGets bool) {
 	s.FaultAt, s.FaultKind, s.FaultOnlyResource, s.FaultCountsGets = at, kind, onlyResource, countGets
 }
 
-func (s *Server) DisarmFault() { s.FaultKind = FaultNone }
+func (s *Server) DisarmFault() { s.FaultKind, s.FaultKind2 = FaultNone, FaultNone }
 
 func (s *Server) find(res, ns, name string) int {
 	for i, o := range s.objs {
@@ -208,6 +210,10 @@ func (c *rc) begin(verb, name, sub string) (*Req, error) {
 		if s.FaultOnlyResource == "" || s.FaultOnlyResource == c.gvr.Resource {
 			n := s.faultSeq
 			s.faultSeq++
+			if s.FaultKind2 != FaultNone && n == s.FaultAt2 {
+				req.Err = MakeError(s.FaultKind2, c.gr(), name)
+				return req, req.Err
+			}
 			if s.FaultKind != FaultNone && n == s.FaultAt {
 				if s.FaultKind == FaultCrash {
 					panic(Crash{AfterRequests: n})
